@@ -156,7 +156,8 @@ def _arith_check(x: dict[str, Any], deep: bool = True) -> dict[str, Any]:
         end_offsets = x["end_offsets"]
 
     f = x["func"]
-    local_assigns = [st for st in f.node.body if isinstance(st, ast.Assign) and len(st.targets) == 1 and isinstance(st.targets[0], ast.Name)
+    top = [s2 for st0 in f.node.body for s2 in (st0.body if isinstance(st0, ast.Try) else [st0])]  # a try around the assignment does not change its value
+    local_assigns = [st for st in top if isinstance(st, ast.Assign) and len(st.targets) == 1 and isinstance(st.targets[0], ast.Name)
                      and not any(isinstance(n, (ast.ListComp, ast.GeneratorExp, ast.SetComp, ast.DictComp, ast.Lambda)) for n in ast.walk(st.value))]
     alphabet = [b"a", b"\xc3", b"\x00"]
     for L in range(1, 7):
@@ -322,6 +323,11 @@ def r4_utf16(ctx) -> None:
             dec_ok = isinstance(p, ast.Call) and isinstance(p.func, ast.Attribute) and p.func.attr == "decode" and p.args and const_eval(prog, f.module, p.args[0]).lower().replace("_", "-") in ("utf-8", "utf8")
             from ..raises import caught_locally
             h = caught_locally(prog, f, c, "UnicodeDecodeError")
+            he = caught_locally(prog, f, c, "UnicodeEncodeError")
+            if he is None:
+                r.violation("C04.R4", f.qual, short(prog.enclosing_stmt(c), 100) + " [UnicodeEncodeError]", "the encode step itself fails for surrogate code points (YAML \"\\uD83D\"): UnicodeEncodeError is not handled, so a non-Sigma exception leaves rule loading instead of SigmaValueError", loc)
+            else:
+                r.ok("C04.R4", f.qual, "UnicodeEncodeError of the encode step is handled as well", loc)
             if dec_ok and h is not None and any(isinstance(x, ast.Raise) and "SigmaValueError" in unparse(x) for x in ast.walk(h)):
                 r.ok("C04.R4", f.qual, "re-decoded as utf-8 inside try/except UnicodeDecodeError → SigmaValueError", loc)
             else:
